@@ -9,7 +9,9 @@ One == { U, TT, FF, I(5), [t |-> "char", v |-> 97], [t |-> "byte", v |-> 7], MkS
          Str(<<97, 98>>), [t |-> "bytes", v |-> <<1, 2>>], [t |-> "pair", l |-> MkSym("a"), r |-> I(1)], [t |-> "list", v |-> <<I(1), I(2)>>],
          [t |-> "concat", l |-> I(1), r |-> I(2)], [t |-> "range", l |-> I(0), r |-> I(2)],
          [t |-> "slice", l |-> [t |-> "list", v |-> <<I(1), I(2), I(3)>>], r |-> [t |-> "range", l |-> I(0), r |-> I(2)]],
-         [t |-> "partial", l |-> [t |-> "expr", j |-> 0], r |-> I(1)], [t |-> "expr", j |-> 0], [t |-> "ext", v |-> 3], [t |-> "type", v |-> "Number"] }
+         [t |-> "partial", l |-> [t |-> "expr", j |-> 0], r |-> I(1)], [t |-> "expr", j |-> 0], [t |-> "ext", v |-> 3], [t |-> "type", v |-> "Number"],
+         \* a keyed list and a path with a number part: the walk  list <~ ( :a . 1 )  reaches a number and indexes it
+         [t |-> "list", v |-> <<[t |-> "pair", l |-> MkSym("a"), r |-> I(1)], I(7)>>], [t |-> "symlist", v |-> <<MkSym("a"), I(1)>>] }
 More == { I(0), I(-1), MkDy(1, -1), Str(<<>>), Str(<<97>>), [t |-> "bytes", v |-> <<>>], [t |-> "list", v |-> <<>>], [t |-> "list", v |-> <<[t |-> "pair", l |-> MkSym("a"), r |-> I(1)], I(7)>>],
           [t |-> "pair", l |-> I(1), r |-> I(2)], [t |-> "type", v |-> "List"], [t |-> "type", v |-> "Range"], [t |-> "symlist", v |-> <<MkSym("a"), I(1)>>],
           [t |-> "concat", l |-> [t |-> "list", v |-> <<I(1)>>], r |-> [t |-> "list", v |-> <<I(2)>>]], [t |-> "range", l |-> I(2), r |-> I(0)] }
